@@ -82,6 +82,7 @@ template<class V> static void run(const VpCase* c, VpOutcome* o) {
     const unsigned W = V::width;
     const uint64_t m = elem<T>::mask();
     V a = mk<V>(c->v[0]), b = mk<V>(c->v[1]);
+    poison_below(c->v[0][0] ^ c->op);
     uint64_t got[VP_MAXL], exp[VP_MAXL], got2[VP_MAXL], exp2[VP_MAXL];
     bool two = false;
     const unsigned op = c->op;
